@@ -693,8 +693,10 @@ func (s *Store) rollback(ns walletdb.ReadWriteBucket, height int32) error {
 				// If the credit was previously removed in the
 				// rollback, the credit amount is zero.  Only
 				// mark the previously spent credit as unspent
-				// if it still exists.
-				if amt == 0 {
+				// if it still exists.  A zero amount alone
+				// does not prove removal: a zero-value credit
+				// that still exists must be restored too.
+				if amt == 0 && existsRawCredit(ns, credKey) == nil {
 					continue
 				}
 				unspentVal, err := fetchRawCreditUnspentValue(credKey)
